@@ -1,4 +1,5 @@
 From Coq Require Import Extraction ExtrOcamlBasic.
-From BV Require Import lib.ExtractBase model.ContBuf model.ContPrevector model.ContVecDeque model.ContBitdeque model.ContInst.
+From BV Require Import lib.ExtractBase model.ContBuf model.ContPrevector model.ContVecDeque model.ContBitdeque model.ContPool model.ContInst.
 Extraction "model.ml" extract_base pv_trace_raw pv_spec_raw holds_pv vd_trace_raw vd_spec_raw holds_vd
-  bd_trace_raw bd_spec_raw holds_bd.
+  bd_trace_raw bd_spec_raw holds_bd
+  pool_trace_raw holds_pool.
